@@ -46,6 +46,23 @@ func c20Where() (loop bool, tick bool) {
 	return loop, loop && cb
 }
 
+// is a function whose name ends in `name` on the stack?
+func c20InHandler(name string) bool {
+	pc := make([]uintptr, 48)
+	n := runtime.Callers(2, pc)
+	frames := runtime.CallersFrames(pc[:n])
+	for {
+		f, more := frames.Next()
+		if strings.HasSuffix(f.Function, ")."+name) {
+			return true
+		}
+		if !more {
+			break
+		}
+	}
+	return false
+}
+
 // chain stub for the PM-level runs: abstract chain + deterministic scheduling of `go pm.insertBlock`
 type c20SyncChain struct {
 	*c20StubChain
@@ -149,6 +166,7 @@ type c20PMFail struct {
 }
 
 type c20PMOut struct {
+	racy      bool
 	ops, outs []string
 	fails     []c20PMFail
 	counts    []string
@@ -249,10 +267,16 @@ func c20PMCase(seed int64, maxN int) (res c20PMOut) {
 	tokens := pm.VerifC20SetTest()
 	bc := pm.VerifBlockCache()
 	cc := pm.VerifC20ConfirmCache()
-	conn := &c20Conn{}
-	conn.id[0] = 7
-	peer := network.VerifNewPeer(conn)
-	pm.VerifRegister(peer)
+	// two peers; each message comes from one of them
+	conns := []*c20Conn{{}, {}}
+	var peers []*network.VerifPeer
+	for i, cn := range conns {
+		cn.id[0] = byte(7 + i)
+		p := network.VerifNewPeer(cn)
+		pm.VerifRegister(p)
+		peers = append(peers, p)
+	}
+	peer := peers[0]
 	show := func() string {
 		chain.mu.Lock()
 		var ks []int
@@ -378,6 +402,7 @@ func c20PMCase(seed int64, maxN int) (res c20PMOut) {
 				stalled = true
 				break
 			}
+			peer = peers[rnd.Intn(len(peers))]
 			pendingBlocks = append(pendingBlocks, m.ks)
 			if err := pm.VerifWork(&p2p.Msg{Code: p2p.BlocksMsg, Content: buf}, peer); err != nil {
 				fail("c20/pm-handler-error", "handleBlocksMsg: "+err.Error())
@@ -448,7 +473,16 @@ func c20PMCase(seed int64, maxN int) (res c20PMOut) {
 			break
 		}
 	}
+	// every parent request the node wrote to its peers (sender on arrival, BestToSync peer on the timer)
+	time.Sleep(40 * time.Millisecond)
+	var reqs []int
+	for _, cn := range conns {
+		reqs = append(reqs, cn.requests()...)
+	}
+	sort.Ints(reqs)
+	emit("reqs", "reqs "+c20JoinInts(reqs, ","))
 	if racy {
+		res.racy = true
 		res.ops, res.outs = nil, nil
 		count("pm:interleaving-not-observable(correspondence skipped)")
 	}
@@ -532,6 +566,15 @@ func c20PM(c *Ctx) {
 			}(i)
 		}
 		wg.Wait()
+	}
+	nRacy := 0
+	for _, r := range results {
+		if r.racy {
+			nRacy++
+		}
+	}
+	if nRacy*5 > cases {
+		c20Fail(c, "c20/harness/unobservable-interleavings", fmt.Sprintf("%d of %d ProtocolManager cases had a message in flight when the timer fired (machine too slow?): their correspondence was skipped, which is more than the 20%% this harness tolerates", nRacy, cases), nil)
 	}
 	for _, r := range results {
 		for i := range r.ops {
